@@ -48,6 +48,17 @@ CHECKS["C11"] = dict(
     technique="Lean 4 proofs by induction over the allocation loops + differential correspondence",
     design="5/C11", engine="allocator")
 
+CHECKS["C07"] = dict(
+    text="Kernel-checked theorems about a model of Scheduler.Run/mainLoop/taskLoop + TaskList run to quiescence after every "
+         "event, for every event history: every reachable state is well-formed and quiescent (parked on the primary destination "
+         "with an empty queue, or serving the head of the queue, which is neither finished, removed nor expired); the queue stays "
+         "in arrival order and nothing enters it except through add; after remove(contract) no task of the contract is left and "
+         "none is pointed at, and the contract does not come back without a new add; on disconnect every queued task gets its end "
+         "and disconnect callbacks; end reasons match causes; reported size = queue length. The model is compared op by op with "
+         "the real Scheduler/TaskList under virtual time (fake proxy below the StratumProxyInterface seam).",
+    technique="Lean 4 invariant proofs over a run-to-quiescence model + differential correspondence under synctest virtual time",
+    design="5/C07", engine="allocator")
+
 NOT_YET = {}
 
 ALL = ["C%02d" % i for i in range(1, 21)]
